@@ -49,6 +49,9 @@ def model_for(ph, kind, seed=0):
         u = ph.unitcell
         rc = 1.45 * nn_distance({"lattice": np.asarray(u.cell), "positions": u.scaled_positions})
         return SP.SpringModel(rc=rc, seed=seed, central=(kind == "central-nn"))
+    if kind == "central-long":
+        m = model_for(ph, "long", seed)
+        return SP.SpringModel(rc=m.rc, seed=seed, central=True)
     if kind.startswith("chiral-"):
         m = model_for(ph, kind[7:], seed)
         return SP.SpringModel(rc=m.rc, seed=seed, chiral=0.4)
